@@ -349,6 +349,17 @@ func (r *kvRunner) checkScan(count int, match string) *vcommon.Violation {
 	if v != nil {
 		return v
 	}
+	if count < 1000 || match != "" {
+		if holes(r.s) || len(r.s.tablesByCoefficient) < len(r.s.tables) {
+			r.labels["scan-over-holes-or-recycled"] = true
+		}
+		if count == 1 && len(r.model) >= 2 {
+			r.labels["scan-count1"] = true
+		}
+		if match != "" && len(seen) < len(r.model) {
+			r.labels["scan-match-filters"] = true
+		}
+	}
 	var re interface{ MatchString(string) bool }
 	if match != "" {
 		re = mustRegexp(match)
